@@ -41,11 +41,12 @@ def StepRes.isErr : StepRes → Bool | .retry _ | .permFail => true | _ => false
 def StepRes.okVal? : StepRes → Option JVal | .ok v => some v | _ => none
 
 /-- expressions are opaque to the model; this concrete syntax is what the generators emit
-    (literal, `root.k1.k2`, a map of expressions, something that fails) -/
+    (literal, `root.k1.k2`, a map / a list of expressions, something that fails) -/
 inductive Expr where
   | lit (v : JVal)
   | path (root : String) (keys : List String)
   | mapE (kvs : List (String × Expr))
+  | listE (xs : List Expr)
   | bad
   deriving Repr, Inhabited
 
@@ -536,7 +537,14 @@ def Expr.evalStd (act : JVal) : Expr → Option JVal
   | .lit v => some v
   | .path r ks => getPath (r :: ks) act
   | .mapE kvs => (evalStdKvs act kvs).map JVal.obj
+  | .listE xs => (evalStdList act xs).map JVal.arr
   | .bad => none
+def evalStdList (act : JVal) : List Expr → Option (List JVal)
+  | [] => some []
+  | e :: rest =>
+    match Expr.evalStd act e, evalStdList act rest with
+    | some v, some vs => some (v :: vs)
+    | _, _ => none
 def evalStdKvs (act : JVal) : List (String × Expr) → Option (List (String × JVal))
   | [] => some []
   | (k, e) :: rest =>
